@@ -372,7 +372,7 @@ def frontier(ctx, fams, flavours):
             rule = 'PFS-FRONT'
             inst = 'priority frontier: BinaryHeap pop/push, Reverse used consistently'
             if adt != 'BinaryHeap':
-                why.append('frontier is %s, not a binary heap' % adt)
+                why.append('frontier is %s, not a binary heap%s' % (adt, ' (a set ordered by node value drops a discovered node whose value ties with one already waiting)' if 'Set' in adt else ''))
             elif (K.take_m, K.add_m) != ('pop', 'push'):
                 why.append('take=%s add=%s' % (K.take_m, K.add_m))
             if K.front_reverse != K.advance_wrapped:
